@@ -1,8 +1,130 @@
-//! GEN - bounded-exhaustive input enumerators.
+//! GEN - bounded-exhaustive input enumerators. Every generated case is run on
+//! the real code inside `catch_unwind` and compared with a reference function.
 
-use serde_json::Value;
+pub mod hexgen;
+pub mod labelgen;
 
-pub fn replay(engine: &str, _v: &Value) -> i32 {
-    println!("unknown engine '{engine}' in replay file");
-    2
+use crate::report::{Failure, Outcome};
+use serde_json::{json, Value};
+use std::collections::BTreeMap;
+
+/// Accumulator of one enumeration.
+#[derive(Default)]
+pub struct Acc {
+    pub evaluations: u64,
+    pub nontrivial: u64,
+    pub failures: Vec<Failure>,
+    pub fail_total: u64,
+    pub counters: BTreeMap<String, u64>,
+    pub samples: Vec<Value>,
+}
+
+impl Acc {
+    pub fn bump(&mut self, k: &str, by: u64) {
+        *self.counters.entry(k.to_string()).or_insert(0) += by;
+    }
+    /// record a failure; one replay object is kept per signature
+    pub fn fail(&mut self, prop: &str, signature: &str, summary: String, replay: Value) {
+        self.fail_total += 1;
+        self.bump(&format!("failures[{signature}]"), 1);
+        if !self.failures.iter().any(|f| f.signature == signature) && self.failures.len() < 16 {
+            self.failures.push(Failure { prop: prop.to_string(), signature: signature.to_string(), summary, replay });
+        }
+    }
+    pub fn sample(&mut self, v: Value) {
+        if self.samples.len() < 8 {
+            self.samples.push(v);
+        }
+    }
+    pub fn merge(&mut self, o: Acc) {
+        self.evaluations += o.evaluations;
+        self.nontrivial += o.nontrivial;
+        self.fail_total += o.fail_total;
+        for (k, v) in o.counters {
+            *self.counters.entry(k).or_insert(0) += v;
+        }
+        for f in o.failures {
+            if !self.failures.iter().any(|x| x.signature == f.signature) && self.failures.len() < 16 {
+                self.failures.push(f);
+            }
+        }
+        for s in o.samples {
+            self.sample(s);
+        }
+    }
+}
+
+/// Run `f(i, acc)` for every i in 0..total on all cores; results merged in index order.
+pub fn par_cases(total: usize, f: impl Fn(usize, &mut Acc) + Sync) -> Acc {
+    let threads = crate::inflight::worker_threads().max(1);
+    crate::inflight::start_watchdog();
+    let chunk = total.div_ceil(threads * 8).max(1);
+    let nchunks = total.div_ceil(chunk);
+    let next = std::sync::atomic::AtomicUsize::new(0);
+    let outs: Vec<std::sync::Mutex<Option<Acc>>> = (0..nchunks).map(|_| std::sync::Mutex::new(None)).collect();
+    std::thread::scope(|s| {
+        for _ in 0..threads.min(nchunks.max(1)) {
+            s.spawn(|| {
+                crate::real::install_panic_hook();
+                loop {
+                    let ci = next.fetch_add(1, std::sync::atomic::Ordering::Relaxed);
+                    if ci >= nchunks {
+                        break;
+                    }
+                    let mut acc = Acc::default();
+                    for i in ci * chunk..((ci + 1) * chunk).min(total) {
+                        f(i, &mut acc);
+                    }
+                    *outs[ci].lock().unwrap() = Some(acc);
+                }
+                crate::inflight::idle();
+            });
+        }
+    });
+    let mut all = Acc::default();
+    for o in outs {
+        if let Some(a) = o.into_inner().unwrap() {
+            all.merge(a);
+        }
+    }
+    all
+}
+
+pub fn outcome(prop: &str, tier: &str, level: &str, rule: &str, acc: Acc, exhaustive: bool, extra: Value, wall_s: f64, assumptions: Vec<String>, machinery: Vec<String>) -> Outcome {
+    let mut cov = json!({
+        "evaluations": acc.evaluations,
+        "distinct_nontrivial": acc.nontrivial,
+        "rule": rule,
+        "samples": acc.samples,
+        "exhaustive": exhaustive,
+        "counters": acc.counters,
+        "failing_cases": acc.fail_total,
+    });
+    if let (Value::Object(a), Value::Object(b)) = (&mut cov, extra) {
+        for (k, v) in b {
+            a.insert(k, v);
+        }
+    }
+    Outcome {
+        prop: prop.to_string(),
+        tier: tier.to_string(),
+        level: level.to_string(),
+        coverage: cov,
+        assumptions,
+        failures: acc.failures,
+        failure_total: acc.fail_total,
+        wall_s,
+        machinery,
+    }
+}
+
+pub fn replay(engine: &str, v: &Value) -> i32 {
+    match engine {
+        "hexgen" => hexgen::replay(v),
+        "labelgen" => labelgen::replay(v),
+        _ => {
+            println!("unknown engine '{engine}' in replay file");
+            2
+        }
+    }
 }
